@@ -205,6 +205,10 @@ func genC07(r *Rng, tier string, emit func(Case)) {
 		}
 		e("b58sr", "alpha", hx(s))
 		e("b58dec", "alpha", hx(s))
+		if len(s) > 0 && r.Intn(4) == 0 {
+			e("b58sr", "utf8", hs(utf8Variant(r, string(s))))
+			e("chkdec", "utf8", hs(utf8Variant(r, base58.CheckEncode(r.Bytes(20), byte(r.Intn(256))))))
+		}
 		if len(s) > 0 && r.Intn(3) == 0 {
 			s2 := append([]byte{}, s...)
 			s2[r.Intn(len(s2))] = []byte("0OIl _\x80\xff")[r.Intn(8)]
@@ -269,6 +273,9 @@ func genC07(r *Rng, tier string, emit func(Case)) {
 		if err == nil {
 			e("bechdec", "valid", hs(s0))
 			e("bechdec", "upper", hs(strings.ToUpper(s0)))
+			if r.Intn(4) == 0 {
+				e("bechdec", "utf8", hs(utf8Variant(r, s0)))
+			}
 			m := []byte(s0)
 			switch r.Intn(8) {
 			case 0: // mixed case
